@@ -66,6 +66,10 @@ def gen_case(seed: int, tier: str, index: int) -> Dict[str, Any]:
         # of a blocking receive (and an answer can race the retry)
         cfg.update(T=T, N=N, answer=answer, answer_dup=rng.random() < 0.2, competing=rng.random() < 0.3,
                    phase=rng.choice([0.0, 0.0, 0.01, 0.025, 0.04, round(rng.uniform(0, 0.05), 4)]))
+        if answer is None and T <= 1.0 and N >= 1 and rng.random() < 0.5:
+            # a burst of other sends queued while the request is outstanding: behind the 50/s throttle a retransmission then waits
+            # longer than one timeout, so the next retry is queued while the previous one has not left yet
+            cfg["backlog"] = {"n": int(T * 50 * rng.choice([1.2, 2.0, 3.5])) + 2, "at": round(rng.uniform(0.0, N * T), 3)}
     elif sub == "handshake":
         T = rng.choice([0.5, 1, 2])
         cfg["tables"] = {"idle": {"PROTOCOL_TIMEOUT_IN_SECONDS": T, "PROTOCOL_RETRY_COUNT": rng.choice([4, 10]), "PING_FREQUENCY_IN_SECONDS": rng.choice([2, 60])}}
@@ -338,13 +342,22 @@ def sub_life(world: WorldT) -> None:
     sock.add_receive_handler(h)
     sock.queue_send(h, peer.addr)
     answer_rec = None
+    backlog = cfg.get("backlog")
+    if backlog:
+        world.sleep(backlog["at"])
+        for i in range(backlog["n"]):
+            sock.queue_send(PrefixHandler(100 + i, [b"NEVER"], "", record, send_bytes=b"FILL-%d" % i), peer.addr)
+        res.probe("backlog_longer_than_timeout")
     if answer is not None:
         world.sleep(answer)
         answer_rec = world.net.inject(peer.addr, me, b"REPLY-1", delay=0.001, who="answer")
         if cfg.get("answer_dup"):
             world.net.inject(peer.addr, me, b"REPLY-1", delay=0.03, who="answer")
-    world.wait_until(lambda: gone_at["t"] is not None, (N + 2) * T + 5, step=0.01)
+    world.wait_until(lambda: gone_at["t"] is not None, (N + 2) * T + 5 + (backlog["n"] * THROTTLE * 2 if backlog else 0), step=0.01)
     world.sleep(T + 0.5)
+    if backlog:
+        world.wait_until(lambda: not sock._send_handlers, 60, step=0.05)
+        world.sleep(0.2)
     tx = [r for r in world.net.history if r.dst == peer.addr and r.data == b"REQUEST-1"]
     handled = [e for e in record if e[0] == "handle" and e[1] == 1]
     ctx = f"T={T} N={N} answer_at={answer} competing={cfg.get('competing')}"
@@ -361,14 +374,15 @@ def sub_life(world: WorldT) -> None:
         if len(tx) != 1 + N:
             world.violate(PROP, "retransmission-count", f"{ctx}: {len(tx)} transmissions of an unanswered request, expected 1 + {N}",
                           sig="retransmission-count:" + ("more" if len(tx) > 1 + N else "fewer"))
-        for a, b in zip(tx, tx[1:]):
+        for a, b in zip(tx, tx[1:]) if not backlog else []:
+            # (with a backlog the retransmissions wait in the queue: their spacing on the wire says nothing about the timeout)
             # the timeout runs from when the handler was created / the retry was queued; the datagram itself leaves up to
             # one engine iteration (+ throttle) later, so spacing on the wire may be that much shorter than T
             if b.t - a.t < T - 2 * ITER - THROTTLE - 1e-6:
                 world.violate(PROP, "retry-before-timeout", f"{ctx}: retransmitted {b.t - a.t:.3f}s after the previous transmission")
             if b.t - a.t > T + 4 * ITER + 0.01:
                 world.violate(PROP, "retry-late", f"{ctx}: retransmitted {b.t - a.t:.3f}s after the previous transmission (timeout {T}s + engine iterations)")
-        if tx and gone_at["t"] is not None:
+        if tx and gone_at["t"] is not None and not backlog:
             lim = tx[-1].t + T + 4 * ITER
             if gone_at["t"] > lim + 0.02:
                 world.violate(PROP, "handler-removed-late", f"{ctx}: removed at {gone_at['t'] - t0:.3f}s, last transmission at {tx[-1].t - t0:.3f}s")
@@ -474,7 +488,7 @@ ASSUMPTIONS = [
     "registration changes are made between datagrams, so 'the first registered handler that accepts it' is unambiguous",
     "the ping thread may die of the 45 s connection timeout in long loss patterns; the statement is about the handshake",
 ]
-PROBES = ["incoming_traffic_while_sending", "multi_caller", "preempted_inside_udp_socket", "handler_removed_while_running", "no_handler_accepts", "handler_raised_in_handle",
+PROBES = ["backlog_longer_than_timeout", "incoming_traffic_while_sending", "multi_caller", "preempted_inside_udp_socket", "handler_removed_while_running", "no_handler_accepts", "handler_raised_in_handle",
           "handler_raised_in_handled", "unanswered", "answered", "answer_after_removal", "handshake_with_losses", "segment_lost_during_handshake"]
 N_QUICK = 4800
 
